@@ -17,6 +17,7 @@ import GoblVerif.Spec.C03
 import GoblVerif.Generated.CalcFacts
 import GoblVerif.Proofs.CalcCurrency
 import GoblVerif.Proofs.CalcTax
+import GoblVerif.Proofs.CalcReadd
 
 namespace GoblVerif.Props.C03
 open GoblVerif GoblVerif.Calc
@@ -176,6 +177,103 @@ theorem totals_readd (d : Doc) (p : Pre) (tx : TaxTotal)
     simp only [ha, Option.map_some, Option.some.injEq] at hx
     rw [← hx, sub_same _ _ (by rw [hadv a ha, hP]), hP]
     simp [valueOr0]
+
+/-- **currency_rule_readds** (capstone): for EVERY document calculated under the
+currency rule, the executable oracle `Spec.C03.readdOk` — the whole statement of
+C03 on the presented figures, and the function that judges the output of the
+real `Invoice.Calculate` in harness/props/c03 — holds of what `Calc.calculate`
+returns: every line and breakdown row total = sum − discounts + charges;
+document sum = Σ line totals; discount / charge totals = Σ of their rows;
+total = sum − discounts + charges − included tax; every rate amount and
+surcharge amount = its percentage of the presented base rounded half away from
+zero to the currency; category amount / surcharge = Σ of its rates'; tax sum =
+Σ ordinary − Σ retained (with surcharges) = the document's tax;
+total with tax = total + tax; payable = total with tax + rounding; advances =
+Σ advance rows, each percentage advance that percentage of the presented total
+with tax; due = payable − advances; each percentage due date that percentage
+of the presented payable amount; no figure finer than the currency (lines: than
+the item price).  Assembled from `calcLine_currency` (`line_total_readds`),
+`doc_sums_readd`, `catAmounts_currency` (`category_readds`),
+`rateAmounts_amount` (`rate_amount_from_presented_base`), `finalSum_currency`
+(`tax_sum_readds`) and `totals_readd`, extended in Proofs/CalcReadd.lean to
+breakdown rows, the presentation roundings (`Line.round`, `Discount.round`,
+`tax.Total.round`, `Totals.round` are the identity on these figures), surcharge
+presence, advances and due dates.
+
+Hypotheses, all about the *input*:
+* `hclean`  — no figures of an earlier calculation on lines / breakdown rows;
+* `hguard`  — the property's own guard: fixed line (and breakdown) discount and
+  charge amounts, and charge rates, are not finer than the currency (the
+  complement is the known finding of C04); percentages, explicit bases, item
+  prices and quantities are unrestricted (prices may be finer than the currency);
+* `hitems`, `hrates` — the encoding: an item priced in the document's currency
+  and an exchange rate into it carry that currency's number of decimals;
+* `hrnd`    — an externally supplied `totals.rounding` is given at the currency's precision;
+* `hadv`    — fixed advances are not finer than the currency;
+* `hpay`    — advances and due dates only exist inside payment details.
+Document discounts / charges, due dates and every percentage need no guard.
+A document that `calculate` refuses (no exchange rate, retained category
+included in prices) has no output: `h` cannot hold. -/
+theorem currency_rule_readds (d : Doc) (out : Out) (hr : d.rule = .currency)
+    (h : calculate exactOps d = .ok out)
+    (hclean : ∀ l ∈ d.lines, lineClean l)
+    (hguard : ∀ l ∈ d.lines, lineGuard d.c l ∧ ∀ sl ∈ l.breakdown, subGuard d.c sl)
+    (hitems : ∀ l ∈ d.lines, ∀ it, l.item = some it → itemOk d.cur d.c it)
+    (hrates : ratesOk d.cur d.c d.rates)
+    (hrnd : ∀ x, d.rounding = some x → x.exp = d.c)
+    (hadv : ∀ a ∈ d.advances, a.percent = none → a.amount.exp ≤ d.c)
+    (hpay : d.hasPayment = false → d.advances = [] ∧ d.dues = []) :
+    Spec.C03.readdOk d.c out = true := by
+  unfold calculate at h
+  cases hp : pre exactOps d with
+  | error e => simp [hp] at h
+  | ok p =>
+    simp only [hp] at h
+    obtain ⟨hcl, hdsum, hcsum⟩ := pre_fields d p hp
+    rw [hr] at hcl
+    have hL := calcLines_facts d.cur d.c d.rates d.lines p.lines hguard hclean hitems hrates hcl
+    split at h
+    · injection h with h
+      subst h
+      exact readdOk_noTotals d.c _ hL rfl
+    · cases htx : taxTotal exactOps d.rule d.c d.includes p.rows with
+      | error e => simp [htx] at h
+      | ok tx =>
+        simp only [htx] at h
+        injection h with h
+        subst h
+        obtain ⟨hsum, hD, hC, hds, hcs, ht2⟩ :=
+          doc_sums_readd d p hr (fun l hl => (hclean l hl).2.1) hp
+        rw [hr] at htx
+        have hT := taxTotal_facts d.c d.includes p.rows tx htx
+        have h2 : p.total2.exp = d.c := by rw [ht2]
+        have htot := totals_readd d p tx h2 (by rw [hT.precise_eq, hT.2.1]) (hT.taxIncluded_exp d.includes) hrnd
+          (rawTotals_advances_exp d p tx h2 hadv)
+        exact readdOk_finish d p tx hL hsum hD hC hds hcs
+          (fun hn => adjSum_none d.c _ (hdsum ▸ hn)) (fun hn => adjSum_none d.c _ (hcsum ▸ hn))
+          ht2 hT hrnd hadv hpay htot
+
+/-- non-vacuity of `currency_rule_readds`: `Calc.readdExample` (three lines, one
+priced by a breakdown with a foreign-currency row, a price finer than the
+currency, tax-included prices, two VAT 21 % groups that differ in the surcharge,
+a retained category, document discount and charge, external rounding, a
+percentage and a fixed advance, a due date) satisfies every hypothesis … -/
+example (out : Out) (h : calculate exactOps readdExample = .ok out) : Spec.C03.readdOk 2 out = true :=
+  currency_rule_readds readdExample out rfl h (by decide) (by decide) (by decide) (by decide) (by decide)
+    (by decide) (by decide)
+
+/-- … is calculated, and presents these totals (sum, discount, charge, included
+tax, total, tax, total with tax, payable, advances, due) -/
+example : (calculate exactOps readdExample).toOption.map (fun o => o.totals.map (fun t =>
+      [some t.sum, t.discount, t.charge, t.taxIncluded, some t.total, some t.tax, some t.totalWithTax,
+       some t.payable, t.advances, t.due])) =
+    some (some [some ⟨8429, 2⟩, some ⟨421, 2⟩, some ⟨123, 2⟩, some ⟨1151, 2⟩, some ⟨6980, 2⟩, some ⟨822, 2⟩,
+      some ⟨7802, 2⟩, some ⟨7803, 2⟩, some ⟨2841, 2⟩, some ⟨4962, 2⟩]) := by decide
+
+/-- the oracle is not trivially true: one cent more on the payable amount and it fails -/
+example : (calculate exactOps readdExample).toOption.map (fun o =>
+      Spec.C03.readdOk 2 { o with totals := o.totals.map (fun t => { t with payable := ⟨t.payable.value + 1, 2⟩ }) }) =
+    some false := by decide +kernel
 
 /-- non-vacuity: a concrete line (price 10.005, quantity 3, a 10% discount and a fixed 1.00 charge, EUR) -/
 example :
